@@ -312,12 +312,23 @@ func ruleT3(c *Ctx) {
 					if !ok || fn.Pkg() != pk.Types {
 						return true
 					}
-					// only calls that take the transaction (per-transaction checks)
-					takesTx := false
+					// only calls that take the transaction (per-transaction checks), or the list of transactions
+					// (a helper that holds the loop)
+					takesTx, takesList := false, false
 					for _, a := range call.Args {
 						if t := info.TypeOf(a); t != nil && strings.HasSuffix(types.TypeString(t, nil), "ast.Transaction") {
-							takesTx = true
+							if _, isSlice := t.Underlying().(*types.Slice); isSlice {
+								takesList = true
+							} else {
+								takesTx = true
+							}
 						}
+					}
+					if takesList && !takesTx {
+						if decl := c.P.declOf[fn]; decl != nil && decl.Body != nil && depth < 3 && decl != cur {
+							collect(decl, inLoop0, prefix, depth+1)
+						}
+						return true
 					}
 					if !takesTx {
 						return true
@@ -454,38 +465,40 @@ func ruleT3(c *Ctx) {
 // ---------- T4: diagnostic codes written by the analyzer = codes filtered by the server ----------
 
 func ruleT4(c *Ctx) {
-	apk := c.P.ByRel["internal/analyzer"]
 	spk := c.P.ByRel["internal/server"]
-	// W: code literals per producing function
+	// W: codes stored into analyzer.Diagnostic.Code, per producing function (SSA: a composite literal and a
+	// field assignment are the same store)
 	written := map[string]string{} // code -> producer function
-	for _, f := range apk.Syntax {
-		for _, d := range f.Decls {
-			fd, ok := d.(*ast.FuncDecl)
-			if !ok || fd.Body == nil {
-				continue
-			}
-			ast.Inspect(fd.Body, func(n ast.Node) bool {
-				cl, ok := n.(*ast.CompositeLit)
+	for _, f := range c.P.ModuleFuncs() {
+		top := f
+		for top.Parent() != nil {
+			top = top.Parent()
+		}
+		if top.Pkg != c.P.SSAPkg("internal/analyzer") {
+			continue
+		}
+		for _, b := range f.Blocks {
+			for _, ins := range b.Instrs {
+				st, ok := ins.(*ssa.Store)
 				if !ok {
-					return true
+					continue
 				}
-				t := apk.TypesInfo.TypeOf(cl)
-				if t == nil || !strings.HasSuffix(types.TypeString(t, nil), "analyzer.Diagnostic") {
-					return true
+				fa, ok := st.Addr.(*ssa.FieldAddr)
+				if !ok || !typeHasSuffix(fa.X.Type(), "internal/analyzer.Diagnostic") {
+					continue
 				}
-				for _, el := range cl.Elts {
-					kv, ok := el.(*ast.KeyValueExpr)
-					if !ok || identOf(kv.Key).Name != "Code" {
-						continue
+				if fa.X.Type().Underlying().(*types.Pointer).Elem().Underlying().(*types.Struct).Field(fa.Field).Name() != "Code" {
+					continue
+				}
+				vals := map[string]bool{}
+				if stringConsts(st.Val, map[ssa.Value]bool{}, vals) {
+					for v := range vals {
+						written[v] = top.Name()
 					}
-					if s, ok := stringConst(apk.TypesInfo, kv.Value); ok {
-						written[s] = fd.Name.Name
-					} else {
-						c.undecided("T4", c.P.declName(fd), "non-constant diagnostic code", kv.Pos(), "diagnostic code is not a string constant")
-					}
+				} else {
+					c.undecided("T4", funcName(f), "non-constant diagnostic code", st.Pos(), "diagnostic code is not a string constant")
 				}
-				return true
-			})
+			}
 		}
 	}
 	c.census("T4", "diagnostic codes written by the analyzer", len(written), 3)
@@ -685,21 +698,35 @@ func ruleT4(c *Ctx) {
 				}
 				nUse++
 				okGuard := false
-				for _, cc := range controlCondsPol(b) {
-					call, ok := cc.Cond.(*ssa.Call)
-					if !ok || !cc.Taken {
-						continue
+				// the conditions of the store and, when the conversion sits in a helper, of the call sites leading to it
+				blks := []*ssa.BasicBlock{b}
+				sameFn := true
+				for fn, depth := f, 0; depth < 3; depth++ {
+					sites := cgView{c}.callersOf(fn)
+					if len(sites) != 1 || !isDiagParamFn(fn) {
+						break
 					}
-					if cal := call.Common().StaticCallee(); cal != nil && cal.Object() == filterObj {
-						for _, a := range call.Common().Args {
-							for v := range backSlice(a) {
-								switch x := v.(type) {
-								case *ssa.Field:
-									if x.X == src {
-										okGuard = true
+					blks = append(blks, sites[0].Block())
+					fn = sites[0].Parent()
+					sameFn = false
+				}
+				for _, blk := range blks {
+					for _, cc := range controlCondsPol(blk) {
+						call, ok := cc.Cond.(*ssa.Call)
+						if !ok || !cc.Taken {
+							continue
+						}
+						if cal := call.Common().StaticCallee(); cal != nil && cal.Object() == filterObj {
+							for _, a := range call.Common().Args {
+								for v := range backSlice(a) {
+									var base ssa.Value
+									switch x := v.(type) {
+									case *ssa.Field:
+										base = x.X
+									case *ssa.FieldAddr:
+										base = x.X
 									}
-								case *ssa.FieldAddr:
-									if x.X == src {
+									if base != nil && typeHasSuffix(base.Type(), "internal/analyzer.Diagnostic") && (base == src || !sameFn) {
 										okGuard = true
 									}
 								}
@@ -714,6 +741,40 @@ func ruleT4(c *Ctx) {
 		}
 	}
 	c.census("T4", "conversions of analyzer diagnostics for publishing", nUse, 1)
+}
+
+// isDiagParamFn: the function takes an analyzer diagnostic (a conversion helper).
+func isDiagParamFn(f *ssa.Function) bool {
+	for _, p := range f.Params {
+		if typeHasSuffix(p.Type(), "internal/analyzer.Diagnostic") {
+			return true
+		}
+	}
+	return false
+}
+
+// stringConsts collects the constant strings a value can take (constants merged by phi nodes); false if some
+// source is not a constant.
+func stringConsts(v ssa.Value, seen map[ssa.Value]bool, out map[string]bool) bool {
+	if seen[v] {
+		return true
+	}
+	seen[v] = true
+	switch x := v.(type) {
+	case *ssa.Const:
+		if x.Value != nil && x.Value.Kind() == constant.String {
+			out[constant.StringVal(x.Value)] = true
+			return true
+		}
+	case *ssa.Phi:
+		for _, e := range x.Edges {
+			if !stringConsts(e, seen, out) {
+				return false
+			}
+		}
+		return true
+	}
+	return false
 }
 
 // ---------- T9: occurrence coverage of commodity sites ----------
